@@ -1,11 +1,11 @@
-(* get_reg_changes (Model/RegChanges.v) against a concrete register-file semantics -- DESIGN.md C06 / C03.
+(* get_reg_changes_core (Model/RegChanges.v) against a concrete register-file semantics -- DESIGN.md C06 / C03.
 
    Registers hold integers (regfile = name -> Z, as in Proofs/MemDep.v; names are prefix+name, no sub-register aliasing
    and no wrap-around: see notes/C06-regchanges.md).  `arch_effect` is the hand-written architectural meaning of the
    instructions whose ISA entries carry an `operation:` (x86 add/sub/sbb/inc/dec/mov, AArch64 add(s)/sub(s)/mov);
    it never looks at the operation strings.
 
-   entry_sound e:  for every instruction matching the operand pattern of the ISA entry e, the model of get_reg_changes
+   entry_sound e:  for every instruction matching the operand pattern of the ISA entry e, the model of get_reg_changes_core
    (which interprets e's operation string) returns a dict, and for every architectural step rho -> rho' of that
    instruction the dict describes the step:  a reported change (name, value) means  rho' reg = rho name + value,
    None means unknown, and every register that is not reported is unchanged.
@@ -106,11 +106,21 @@ Fixpoint matches (pat : list pat1) (ops : list iop) : Prop :=
 Definition safe_origin_dict (l : rc_dict) : Prop :=
   forall reg st nm, In (reg, Some st) l -> o_name st = Some nm -> nm = reg \/ ~ In nm (map fst l).
 
+(* for every instruction matching the entry's pattern: the model (before the sub-register rule) returns a dict l; origins are
+   safe and are register operands of the instruction; and whatever the architectural effect (d, v) is, d is reported, nothing
+   but d is reported, and a constant claim (nm, k) about d satisfies  v = rho nm + k  *)
 Definition entry_sound (e : op_entry) : Prop :=
   forall ops, matches (oe_pat e) ops ->
-  exists l, get_reg_changes true (pattern_dests (oe_pat e) ops) ops (Some (entry_of e)) false = RcOk l /\
+  exists l, get_reg_changes_core true (pattern_dests (oe_pat e) ops) ops (Some (entry_of e)) false = RcOk l /\
             safe_origin_dict l /\
-            forall rho rho', arch_step (oe_x86 e) (oe_mnem e) ops rho rho' -> changes_describe l rho rho'.
+            (forall reg st nm, In (reg, Some st) l -> o_name st = Some nm -> In (IReg nm) ops) /\
+            forall rho cf d v, arch_effect (oe_x86 e) (oe_mnem e) ops rho cf = Some (d, v) ->
+              In d (map fst l) /\ (forall reg, In reg (map fst l) -> reg = d) /\
+              (forall c, In (d, c) l ->
+                 match c with
+                 | Some st => exists nm k, o_name st = Some nm /\ o_value st = Some k /\ v = rho nm + k
+                 | None => True
+                 end).
 
 (* the instruction is in the vocabulary of arch_effect: the soundness statement is not vacuous *)
 Definition entry_inhabited (e : op_entry) : Prop :=
@@ -167,38 +177,37 @@ Ltac destruct_ops M :=
            clear M1
          end.
 
+Ltac in_cases HIn :=
+  cbn in HIn; repeat (destruct HIn as [HIn|HIn]; [inversion HIn; subst; clear HIn|]); try contradiction.
+
 Ltac solve_entry :=
   let ops := fresh "ops" in let M := fresh "M" in
   intros ops M; cbn in M;
   destruct_ops M;
   split_names;
   (eexists; split;
-   [ unfold get_reg_changes, pattern_dests, entry_of; norm_eqb; reflexivity
+   [ unfold get_reg_changes_core, pattern_dests, entry_of; norm_eqb; reflexivity
    | split;
    [ let reg := fresh "reg" in let st := fresh "st" in let nm := fresh "nm" in
      let HIn := fresh "HIn" in let Hn := fresh "Hn" in let HH := fresh "HH" in
-     intros reg st nm HIn Hn; cbn in HIn;
-     repeat (destruct HIn as [HIn|HIn]; [inversion HIn; subst; clear HIn|]); try contradiction;
+     intros reg st nm HIn Hn; in_cases HIn;
      cbn in Hn; inversion Hn; subst;
      first [ left; reflexivity
            | right; cbn; intros HH; repeat (destruct HH as [HH|HH]; [congruence|]); contradiction ]
-   | let rho := fresh "rho" in let rho' := fresh "rho'" in
-     let cf := fresh "cf" in let d := fresh "d" in let v := fresh "v" in
-     let Hcf := fresh "Hcf" in let He := fresh "He" in let Hd := fresh "Hd" in let Ho := fresh "Ho" in
-     intros rho rho' (cf & d & v & Hcf & He & Hd & Ho);
-     cbn in He; inversion He; subst; clear He;
+   | split;
+   [ let reg := fresh "reg" in let st := fresh "st" in let nm := fresh "nm" in
+     let HIn := fresh "HIn" in let Hn := fresh "Hn" in
+     intros reg st nm HIn Hn; in_cases HIn;
+     cbn in Hn; inversion Hn; subst; cbn; auto 8
+   | let rho := fresh "rho" in let cf := fresh "cf" in let d := fresh "d" in let v := fresh "v" in let He := fresh "He" in
+     intros rho cf d v He; cbn in He; inversion He; subst; clear He;
+     split; [cbn; auto|];
      split;
-     [ let reg := fresh "reg" in let c := fresh "c" in let HIn := fresh "HIn" in
-       intros reg c HIn; cbn in HIn;
-       repeat (destruct HIn as [HIn|HIn]; [inversion HIn; subst; clear HIn|]); try contradiction;
-       try exact I;
-       eexists _, _; split; [reflexivity|split; [reflexivity|]];
-       repeat match goal with
-              | H : forall r, r <> ?x -> _, N : ?y <> ?x |- context [?f ?y] => rewrite (H y N)
-              end;
-       try rewrite Hd; lia
-     | let r := fresh "r" in let Hr := fresh "Hr" in
-       intros r Hr; apply Ho; intros ->; apply Hr; cbn; auto ] ] ]).
+     [ let reg := fresh "reg" in let HIn := fresh "HIn" in
+       intros reg HIn; cbn in HIn; repeat (destruct HIn as [HIn|HIn]; [subst; try reflexivity|]); try contradiction
+     | let c := fresh "c" in let HIn := fresh "HIn" in
+       intros c HIn; in_cases HIn; try exact I;
+       eexists _, _; split; [reflexivity|split; [reflexivity|lia]] ] ] ] ]).
 
 (* ---------------------------------------------------------------- general facts about the returned dict *)
 Lemma dedup_spec seen l x : In x (dedup seen l) <-> In x l /\ ~ In x seen.
@@ -226,11 +235,11 @@ Lemma change_dict_keys dests nm st : map fst (change_dict dests nm st) = dedup [
 Proof. unfold change_dict. rewrite map_map. cbn [fst]. apply map_id. Qed.
 
 (* registers that are not destinations are never reported; every destination is, once *)
-Theorem rc_keys dests ops isa l :
-  get_reg_changes true dests ops isa false = RcOk l ->
+Theorem rc_core_keys dests ops isa l :
+  get_reg_changes_core true dests ops isa false = RcOk l ->
   NoDup (map fst l) /\ forall r, In r (map fst l) <-> In r dests.
 Proof.
-  unfold get_reg_changes. cbn [negb].
+  unfold get_reg_changes_core. cbn [negb].
   destruct (pre_loop (has_operation isa) ops ([], [])) as [acc|]; [|discriminate].
   match goal with |- match ?a with _ => _ end = _ -> _ => destruct a as [[nm st]|] end; [|discriminate].
   intros H. inversion H; subst. rewrite change_dict_keys. split; [apply dedup_nodup|].
@@ -266,16 +275,16 @@ Proof. intros Hop. destruct isa as [e|]; [|reflexivity]. cbn in Hop. destruct (r
 (* no operation in the ISA entry (or no entry), no write-back: every destination register is unknown *)
 Theorem rc_no_operation dests ops isa :
   has_operation isa = false -> forallb no_wb ops = true ->
-  get_reg_changes true dests ops isa false = RcOk (map (fun r => (r, None)) (dedup [] dests)).
+  get_reg_changes_core true dests ops isa false = RcOk (map (fun r => (r, None)) (dedup [] dests)).
 Proof.
-  intros Hop Hpre. unfold get_reg_changes. cbn [negb]. rewrite Hop.
+  intros Hop Hpre. unfold get_reg_changes_core. cbn [negb]. rewrite Hop.
   rewrite <- (app_nil_r ops), pre_loop_skip by exact Hpre. cbn [pre_loop].
   rewrite no_op_after by exact Hop. reflexivity.
 Qed.
 
 Theorem rc_no_operation_sound dests ops isa rho rho' :
   has_operation isa = false -> forallb no_wb ops = true -> plain_step dests rho rho' ->
-  exists l, get_reg_changes true dests ops isa false = RcOk l /\ changes_describe l rho rho'.
+  exists l, get_reg_changes_core true dests ops isa false = RcOk l /\ changes_describe l rho rho'.
 Proof.
   intros Hop Hpre Hstep. eexists. split; [apply rc_no_operation; assumption|]. split.
   - intros reg c HIn. apply in_map_iff in HIn. destruct HIn as (r & E & _). inversion E; subst. exact I.
@@ -285,10 +294,10 @@ Qed.
 (* one pre-indexed memory operand [b, #k]! : the base is reported as b + k, the other destination registers are unknown *)
 Theorem rc_preindexed dests pre suf isa b k :
   has_operation isa = false -> forallb no_wb pre = true -> forallb no_wb suf = true ->
-  get_reg_changes true dests (pre ++ IMem (Some b) (OffImm (Some k)) true PostFalse :: suf) isa false =
+  get_reg_changes_core true dests (pre ++ IMem (Some b) (OffImm (Some k)) true PostFalse :: suf) isa false =
   RcOk (map (fun r => (r, if String.eqb r b then Some (mkO (Some b) (Some k)) else None)) (dedup [] dests)).
 Proof.
-  intros Hop Hpre Hsuf. unfold get_reg_changes. cbn [negb]. rewrite Hop.
+  intros Hop Hpre Hsuf. unfold get_reg_changes_core. cbn [negb]. rewrite Hop.
   rewrite pre_loop_skip by exact Hpre. cbn [pre_loop bind is_postdict].
   rewrite <- (app_nil_r suf), pre_loop_skip by exact Hsuf. cbn [pre_loop].
   rewrite no_op_after by exact Hop. unfold change_dict. f_equal. apply map_ext. intros r. cbn [nm_get].
@@ -298,7 +307,7 @@ Qed.
 Theorem rc_preindexed_sound dests pre suf isa b k rho rho' :
   has_operation isa = false -> forallb no_wb pre = true -> forallb no_wb suf = true ->
   wb_step dests b k rho rho' ->
-  exists l, get_reg_changes true dests (pre ++ IMem (Some b) (OffImm (Some k)) true PostFalse :: suf) isa false = RcOk l /\
+  exists l, get_reg_changes_core true dests (pre ++ IMem (Some b) (OffImm (Some k)) true PostFalse :: suf) isa false = RcOk l /\
             changes_describe l rho rho'.
 Proof.
   intros Hop Hpre Hsuf (Hb & Hother). eexists. split; [apply rc_preindexed; assumption|]. split.
@@ -311,10 +320,10 @@ Qed.
    after the access), the other destination registers are unknown *)
 Theorem rc_postindexed_main dests pre suf isa b off p :
   has_operation isa = false -> forallb no_wb pre = true -> forallb no_wb suf = true -> is_postdict p = true ->
-  get_reg_changes true dests (pre ++ IMem (Some b) off false p :: suf) isa false =
+  get_reg_changes_core true dests (pre ++ IMem (Some b) off false p :: suf) isa false =
   RcOk (map (fun r => (r, if String.eqb r b then Some (mkO (Some b) (Some 0)) else None)) (dedup [] dests)).
 Proof.
-  intros Hop Hpre Hsuf Hp. unfold get_reg_changes. cbn [negb]. rewrite Hop.
+  intros Hop Hpre Hsuf Hp. unfold get_reg_changes_core. cbn [negb]. rewrite Hop.
   rewrite pre_loop_skip by exact Hpre. cbn [pre_loop bind]. rewrite Hp. cbn [fst snd nm_set st_set].
   rewrite <- (app_nil_r suf), pre_loop_skip by exact Hsuf. cbn [pre_loop].
   rewrite no_op_after by exact Hop. unfold change_dict. f_equal. apply map_ext. intros r. cbn [nm_get].
@@ -333,18 +342,18 @@ Definition post_dict (b : string) (p : ipost) : rc_dict :=
 
 Theorem rc_postindexed dests pre suf isa b off pr p :
   forallb no_postdict pre = true -> is_postdict p = true ->
-  get_reg_changes true dests (pre ++ IMem (Some b) off pr p :: suf) isa true = RcOk (post_dict b p).
+  get_reg_changes_core true dests (pre ++ IMem (Some b) off pr p :: suf) isa true = RcOk (post_dict b p).
 Proof.
-  intros H Hp. unfold get_reg_changes. cbn [negb]. rewrite find_post_skip by exact H.
+  intros H Hp. unfold get_reg_changes_core. cbn [negb]. rewrite find_post_skip by exact H.
   destruct p; [discriminate| |]; reflexivity.
 Qed.
 
 Theorem rc_postindexed_none dests ops isa :
-  forallb no_postdict ops = true -> get_reg_changes true dests ops isa true = RcOk [].
-Proof. intros H. unfold get_reg_changes. cbn [negb]. rewrite <- (app_nil_r ops), find_post_skip by exact H. reflexivity. Qed.
+  forallb no_postdict ops = true -> get_reg_changes_core true dests ops isa true = RcOk [].
+Proof. intros H. unfold get_reg_changes_core. cbn [negb]. rewrite <- (app_nil_r ops), find_post_skip by exact H. reflexivity. Qed.
 
 (* a line without mnemonic (label, directive, comment) changes nothing *)
-Theorem rc_no_mnemonic dests ops isa post : get_reg_changes false dests ops isa post = RcOk [].
+Theorem rc_no_mnemonic dests ops isa post : get_reg_changes_core false dests ops isa post = RcOk [].
 Proof. reflexivity. Qed.
 
 (* ---------------------------------------------------------------- the dict of ONE instruction, applied change by change *)
@@ -430,91 +439,275 @@ Proof.
   - apply SO'. exact SO.
 Qed.
 
+(* ---------------------------------------------------------------- the sub-register rule: widen *)
+Lemma set_none_keys d k r : In r (map fst (set_none d k)) <-> In r (map fst d) \/ r = k.
+Proof.
+  induction d as [|[k' v] d IH]; cbn [set_none map fst In].
+  - split; [intros [H|[]]; right; congruence|intros [[]|H]; left; congruence].
+  - destruct (String.eqb_spec k k') as [->|Ne]; cbn [map fst In]; [|rewrite IH]; split; intuition congruence.
+Qed.
+
+Lemma set_none_nodup d k : NoDup (map fst d) -> NoDup (map fst (set_none d k)).
+Proof.
+  induction d as [|[k' v] d IH]; intros ND; cbn [set_none map fst].
+  - constructor; [intros []|constructor].
+  - cbn [map fst] in ND. inversion ND as [|? ? N ND']; subst.
+    destruct (String.eqb_spec k k') as [->|Ne]; cbn [map fst]; [exact ND|].
+    constructor; [|apply IH; exact ND']. rewrite set_none_keys. intros [H|H]; [contradiction|congruence].
+Qed.
+
+Lemma set_none_in d k r c : In (r, c) (set_none d k) -> In (r, c) d \/ (r = k /\ c = None).
+Proof.
+  induction d as [|[k' v] d IH]; cbn [set_none In].
+  - intros [H|[]]. inversion H; subst. right. split; reflexivity.
+  - destruct (String.eqb_spec k k') as [->|Ne]; cbn [In].
+    + intros [H|H]; [inversion H; subst; right; split; reflexivity|left; right; exact H].
+    + intros [H|H]; [left; left; exact H|]. destruct (IH H) as [H'|H']; [left; right; exact H'|right; exact H'].
+Qed.
+
+Lemma set_none_some d k reg st : NoDup (map fst d) -> In (reg, Some st) (set_none d k) -> In (reg, Some st) d /\ reg <> k.
+Proof.
+  induction d as [|[k' v] d IH]; intros ND; cbn [set_none In].
+  - intros [H|[]]. discriminate.
+  - cbn [map fst] in ND. inversion ND as [|? ? N ND']; subst.
+    destruct (String.eqb_spec k k') as [->|Ne]; cbn [In].
+    + intros [H|H]; [discriminate|]. split; [right; exact H|]. intros ->. apply N. apply in_map_iff. exists (k', Some st). split; [reflexivity|exact H].
+    + intros [H|H]; [inversion H; subst; split; [left; reflexivity|congruence]|].
+      destruct (IH ND' H) as [H1 H2]. split; [right; exact H1|exact H2].
+Qed.
+
+Lemma set_none_hit d k : In (k, None) (set_none d k).
+Proof.
+  induction d as [|[k' v] d IH]; cbn [set_none]; [left; reflexivity|].
+  destruct (String.eqb_spec k k') as [->|Ne]; [left; reflexivity|right; exact IH].
+Qed.
+
+Lemma set_none_keeps_none d k r : In (r, None) d -> In (r, None) (set_none d k).
+Proof.
+  induction d as [|[k' v] d IH]; cbn [set_none]; [intros []|].
+  destruct (String.eqb_spec k k') as [->|Ne]; cbn [In].
+  - intros [H|H]; [inversion H; subst; left; reflexivity|right; exact H].
+  - intros [H|H]; [left; exact H|right; apply IH; exact H].
+Qed.
+
+Lemma widen_keys fs : forall d r, In r (map fst (widen fs d)) <-> In r (map fst d) \/ In r fs.
+Proof.
+  induction fs as [|f fs IH]; intros d r; cbn [widen fold_left In]; [tauto|].
+  change (fold_left set_none fs (set_none d f)) with (widen fs (set_none d f)). rewrite IH, set_none_keys. intuition congruence.
+Qed.
+
+Lemma widen_nodup fs : forall d, NoDup (map fst d) -> NoDup (map fst (widen fs d)).
+Proof.
+  induction fs as [|f fs IH]; intros d ND; cbn [widen fold_left]; [exact ND|].
+  apply (IH (set_none d f)). apply set_none_nodup. exact ND.
+Qed.
+
+Lemma widen_in fs : forall d r c, In (r, c) (widen fs d) -> In (r, c) d \/ (In r fs /\ c = None).
+Proof.
+  induction fs as [|f fs IH]; intros d r c; cbn [widen fold_left In]; [tauto|].
+  intros H. destruct (IH (set_none d f) r c H) as [H'|[H1 H2]]; [|right; tauto].
+  destruct (set_none_in _ _ _ _ H') as [H''|[-> ->]]; [left; exact H''|right; split; [left; reflexivity|reflexivity]].
+Qed.
+
+Lemma widen_some fs : forall d reg st, NoDup (map fst d) -> In (reg, Some st) (widen fs d) -> In (reg, Some st) d /\ ~ In reg fs.
+Proof.
+  induction fs as [|f fs IH]; intros d reg st ND; cbn [widen fold_left In]; [tauto|].
+  intros H. destruct (IH (set_none d f) reg st (set_none_nodup d f ND) H) as [H1 H2].
+  destruct (set_none_some d f reg st ND H1) as [H3 H4]. split; [exact H3|]. intros [E|E]; [congruence|contradiction].
+Qed.
+
+Lemma widen_keeps_none fs : forall d r, In (r, None) d -> In (r, None) (widen fs d).
+Proof.
+  induction fs as [|f fs IH]; intros d r H; cbn [widen fold_left]; [exact H|]. apply (IH (set_none d f)). apply set_none_keeps_none. exact H.
+Qed.
+
+(* a written sub-register leaves NO constant claim about the full-width register: it is reported, as unknown *)
+Lemma widen_full_none fs : forall d f, In f fs -> In (f, None) (widen fs d).
+Proof.
+  induction fs as [|g fs IH]; intros d f; cbn [widen fold_left In]; [intros []|].
+  intros [->|H]; [|apply (IH (set_none d g)); exact H]. apply (widen_keeps_none fs (set_none d f)). apply set_none_hit.
+Qed.
+
+(* None claims nothing and reporting more registers only weakens "unreported registers are unchanged" *)
+Lemma changes_describe_widen fs d rho rho' : changes_describe d rho rho' -> changes_describe (widen fs d) rho rho'.
+Proof.
+  intros (Hc & Ho). split.
+  - intros reg c HIn. destruct (widen_in fs d reg c HIn) as [H|[_ ->]]; [apply Hc; exact H|exact I].
+  - intros r Hr. apply Ho. intros H. apply Hr. apply widen_keys. left. exact H.
+Qed.
+
+Lemma safe_origin_dict_widen fs d :
+  NoDup (map fst d) -> safe_origin_dict d ->
+  (forall reg st nm, In (reg, Some st) d -> o_name st = Some nm -> nm = reg \/ ~ In nm fs) ->
+  safe_origin_dict (widen fs d).
+Proof.
+  intros ND SO Hf reg st nm HIn Hn. destruct (widen_some fs d reg st ND HIn) as [H1 H2].
+  destruct (Hf reg st nm H1 Hn) as [E|Nf]; [left; exact E|].
+  destruct (SO reg st nm H1 Hn) as [E|Nk]; [left; exact E|right]. rewrite widen_keys. tauto.
+Qed.
+
+(* the full function *)
+Lemma get_reg_changes_full dests fulls ops isa :
+  get_reg_changes true dests fulls ops isa false =
+  match get_reg_changes_core true dests ops isa false with RcOk d => RcOk (widen fulls d) | RcErr e => RcErr e end.
+Proof. reflexivity. Qed.
+Lemma get_reg_changes_post dests fulls ops isa :
+  get_reg_changes true dests fulls ops isa true = get_reg_changes_core true dests ops isa true.
+Proof. unfold get_reg_changes. destruct (get_reg_changes_core true dests ops isa true); reflexivity. Qed.
+
+(* the reported registers are exactly the destination registers and the full-width registers of written sub-registers *)
+Theorem rc_keys dests fulls ops isa l :
+  get_reg_changes true dests fulls ops isa false = RcOk l ->
+  NoDup (map fst l) /\ forall r, In r (map fst l) <-> In r dests \/ In r fulls.
+Proof.
+  rewrite get_reg_changes_full. destruct (get_reg_changes_core true dests ops isa false) as [d|] eqn:E; [|discriminate].
+  intros H. inversion H; subst. destruct (rc_core_keys _ _ _ _ E) as (ND & K). split; [apply widen_nodup; exact ND|].
+  intros r. rewrite widen_keys, K. tauto.
+Qed.
+
+Theorem subregister_write_no_claim dests fulls ops isa l f :
+  get_reg_changes true dests fulls ops isa false = RcOk l -> In f fulls ->
+  In (f, None) l /\ forall st, ~ In (f, Some st) l.
+Proof.
+  intros E Hf. pose proof (rc_keys _ _ _ _ _ E) as (ND & _). revert E ND. rewrite get_reg_changes_full.
+  destruct (get_reg_changes_core true dests ops isa false) as [d|]; [|discriminate]. intros H ND. inversion H; subst.
+  assert (HN : In (f, None) (widen fulls d)) by (apply widen_full_none; exact Hf). split; [exact HN|].
+  intros st HS. clear -HN HS ND. induction (widen fulls d) as [|[k c] l IH]; [contradiction|].
+  cbn [map fst] in ND. inversion ND as [|? ? N ND']; subst.
+  destruct HN as [HN|HN], HS as [HS|HS].
+  - congruence.
+  - inversion HN; subst. apply N. apply in_map_iff. exists (f, Some st). split; [reflexivity|exact HS].
+  - inversion HS; subst. apply N. apply in_map_iff. exists (f, None). split; [reflexivity|exact HN].
+  - exact (IH ND' HN HS).
+Qed.
+
 (* ---------------------------------------------------------------- composition with Proofs/MemDep.v *)
 Lemma to_changes_none L : to_changes (map (fun r : string => (r, @None ostate)) L) = Some (map (fun r => (r, @None (string * Z))) L).
 Proof. induction L as [|x L IH]; [reflexivity|]. cbn [map to_changes to_change]. rewrite IH. reflexivity. Qed.
 
+(* name-level reading of entry_sound: the dict describes every architectural step *)
+Lemma entry_sound_describes e ops l rho rho' :
+  (forall rho cf d v, arch_effect (oe_x86 e) (oe_mnem e) ops rho cf = Some (d, v) ->
+     In d (map fst l) /\ (forall reg, In reg (map fst l) -> reg = d) /\
+     (forall c, In (d, c) l ->
+        match c with Some st => exists nm k, o_name st = Some nm /\ o_value st = Some k /\ v = rho nm + k | None => True end)) ->
+  arch_step (oe_x86 e) (oe_mnem e) ops rho rho' -> changes_describe l rho rho'.
+Proof.
+  intros H (cf & d & v & _ & He & Hd & Ho). destruct (H rho cf d v He) as (Hin & Honly & Hcl). split.
+  - intros reg c HIn. assert (reg = d) by (apply Honly; apply in_map_iff; exists (reg, c); split; [reflexivity|exact HIn]). subst reg.
+    specialize (Hcl c HIn). destruct c as [st|]; [|exact I]. destruct Hcl as (nm & k & En & Ek & Ev).
+    exists nm, k. repeat split; try assumption. lia.
+  - intros r Hr. apply Ho. intros ->. contradiction.
+Qed.
+
+(* the sub-register rule assumes that a full-width register of a written sub-register is not itself an operand *)
+Definition fulls_fresh (ops : list iop) (fulls : list string) : Prop := forall f, In f fulls -> ~ In (IReg f) ops.
+
 (* an instruction of the table: the tracked state follows the architectural step *)
 Theorem entry_tracking_sound e :
   entry_sound e ->
-  forall ops, matches (oe_pat e) ops ->
+  forall ops fulls, matches (oe_pat e) ops -> fulls_fresh ops fulls ->
   forall s rho0 rho rho',
     describes s rho0 rho -> arch_step (oe_x86 e) (oe_mnem e) ops rho rho' ->
-    exists l cs, get_reg_changes true (pattern_dests (oe_pat e) ops) ops (Some (entry_of e)) false = RcOk l /\
+    exists l cs, get_reg_changes true (pattern_dests (oe_pat e) ops) fulls ops (Some (entry_of e)) false = RcOk l /\
                  to_changes l = Some cs /\ describes (update_changes s cs) rho0 rho'.
 Proof.
-  intros ES ops M s rho0 rho rho' D A. destruct (ES ops M) as (l & E & SO & CD).
-  destruct (rc_keys _ _ _ _ E) as (ND & _).
-  destruct (instruction_tracking_sound l s rho0 rho rho' ND SO (CD rho rho' A) D) as (cs & Ec & D').
-  exists l, cs. repeat split; assumption.
+  intros ES ops fulls M FF s rho0 rho rho' D A. destruct (ES ops M) as (l & E & SO & OR & CD).
+  destruct (rc_core_keys _ _ _ _ E) as (ND & _).
+  assert (E' : get_reg_changes true (pattern_dests (oe_pat e) ops) fulls ops (Some (entry_of e)) false = RcOk (widen fulls l))
+    by (rewrite get_reg_changes_full, E; reflexivity).
+  assert (SO' : safe_origin_dict (widen fulls l)).
+  { apply safe_origin_dict_widen; try assumption. intros reg st nm HIn Hn. right. intros Hf. exact (FF nm Hf (OR reg st nm HIn Hn)). }
+  pose proof (changes_describe_widen fulls l rho rho' (entry_sound_describes e ops l rho rho' CD A)) as CD'.
+  destruct (instruction_tracking_sound _ s rho0 rho rho' (widen_nodup fulls l ND) SO' CD' D) as (cs & Ec & D').
+  exists (widen fulls l), cs. repeat split; assumption.
 Qed.
 
 (* ... and therefore a store->load link found after the instruction means equal addresses *)
 Theorem entry_link_sound e :
   entry_sound e ->
-  forall ops, matches (oe_pat e) ops ->
+  forall ops fulls, matches (oe_pat e) ops -> fulls_fresh ops fulls ->
   forall s rho0 rho rho',
     describes s rho0 rho -> arch_step (oe_x86 e) (oe_mnem e) ops rho rho' ->
-    exists l cs, get_reg_changes true (pattern_dests (oe_pat e) ops) ops (Some (entry_of e)) false = RcOk l /\
+    exists l cs, get_reg_changes true (pattern_dests (oe_pat e) ops) fulls ops (Some (entry_of e)) false = RcOk l /\
                  to_changes l = Some cs /\
                  forall mem src, memload_one mem (update_changes s cs) src = true ->
                                  (match m_off src with OSym => False | _ => True end) ->
                                  addr_load rho' src = addr rho0 mem.
 Proof.
-  intros ES ops M s rho0 rho rho' D A.
-  destruct (entry_tracking_sound e ES ops M s rho0 rho rho' D A) as (l & cs & E & Ec & D').
+  intros ES ops fulls M FF s rho0 rho rho' D A.
+  destruct (entry_tracking_sound e ES ops fulls M FF s rho0 rho rho' D A) as (l & cs & E & Ec & D').
   exists l, cs. repeat split; try assumption. intros mem src H Hs. exact (memload_sound mem _ src rho0 rho' D' H Hs).
-Qed.
-
-(* an instruction without tracked operation and without write-back *)
-Theorem plain_tracking_sound dests ops isa s rho0 rho rho' :
-  has_operation isa = false -> forallb no_wb ops = true -> plain_step dests rho rho' -> describes s rho0 rho ->
-  exists l cs, get_reg_changes true dests ops isa false = RcOk l /\ to_changes l = Some cs /\
-               describes (update_changes s cs) rho0 rho'.
-Proof.
-  intros Hop Hpre Hstep D. destruct (rc_no_operation_sound dests ops isa rho rho' Hop Hpre Hstep) as (l & E & CD).
-  destruct (rc_keys _ _ _ _ E) as (ND & _).
-  assert (SO : safe_origin_dict l).
-  { rewrite rc_no_operation in E by assumption. inversion E; subst. intros reg st nm HIn _.
-    apply in_map_iff in HIn. destruct HIn as (? & Hx & _). discriminate. }
-  destruct (instruction_tracking_sound l s rho0 rho rho' ND SO CD D) as (cs & Ec & D').
-  exists l, cs. repeat split; assumption.
 Qed.
 
 Lemma base_only_safe_origin b st L :
   o_name st = Some b ->
-  safe_origin_dict (map (fun r : string => (r, if String.eqb r b then Some st else None)) L).
+  safe_origin_dict (map (fun r : string => (r, if String.eqb r b then Some st else None)) L) /\
+  forall fs reg st' nm, In (reg, Some st') (map (fun r : string => (r, if String.eqb r b then Some st else None)) L) ->
+                        o_name st' = Some nm -> nm = reg \/ ~ In nm fs.
 Proof.
-  intros Hb reg st' nm HIn Hn. apply in_map_iff in HIn. destruct HIn as (r & Hx & _). inversion Hx; subst.
-  destruct (String.eqb_spec reg b); [|discriminate]. subst. inversion H1; subst. rewrite Hb in Hn. inversion Hn. left. reflexivity.
+  intros Hb. assert (G : forall reg st' nm, In (reg, Some st') (map (fun r : string => (r, if String.eqb r b then Some st else None)) L) ->
+                                            o_name st' = Some nm -> nm = reg).
+  { intros reg st' nm HIn Hn. apply in_map_iff in HIn. destruct HIn as (r & Hx & _). inversion Hx; subst.
+    destruct (String.eqb_spec reg b); [|discriminate]. subst. inversion H1; subst. rewrite Hb in Hn. inversion Hn. reflexivity. }
+  split; [intros reg st' nm HIn Hn; left; exact (G _ _ _ HIn Hn)|intros fs reg st' nm HIn Hn; left; exact (G _ _ _ HIn Hn)].
+Qed.
+
+(* generic: a core dict with NoDup keys whose only origins are the keys themselves, widened *)
+Lemma widened_tracking_sound d fulls s rho0 rho rho' :
+  NoDup (map fst d) -> safe_origin_dict d ->
+  (forall reg st nm, In (reg, Some st) d -> o_name st = Some nm -> nm = reg \/ ~ In nm fulls) ->
+  changes_describe d rho rho' -> describes s rho0 rho ->
+  exists cs, to_changes (widen fulls d) = Some cs /\ describes (update_changes s cs) rho0 rho'.
+Proof.
+  intros ND SO Hf CD D.
+  exact (instruction_tracking_sound _ s rho0 rho rho' (widen_nodup fulls d ND) (safe_origin_dict_widen fulls d ND SO Hf)
+                                    (changes_describe_widen fulls d rho rho' CD) D).
+Qed.
+
+(* an instruction without tracked operation and without write-back *)
+Theorem plain_tracking_sound dests fulls ops isa s rho0 rho rho' :
+  has_operation isa = false -> forallb no_wb ops = true -> plain_step dests rho rho' -> describes s rho0 rho ->
+  exists l cs, get_reg_changes true dests fulls ops isa false = RcOk l /\ to_changes l = Some cs /\
+               describes (update_changes s cs) rho0 rho'.
+Proof.
+  intros Hop Hpre Hstep D. destruct (rc_no_operation_sound dests ops isa rho rho' Hop Hpre Hstep) as (l & E & CD).
+  destruct (rc_core_keys _ _ _ _ E) as (ND & _).
+  assert (NS : forall reg st, ~ In (reg, Some st) l).
+  { rewrite rc_no_operation in E by assumption. inversion E; subst. intros reg st HIn.
+    apply in_map_iff in HIn. destruct HIn as (? & Hx & _). discriminate. }
+  destruct (widened_tracking_sound l fulls s rho0 rho rho' ND) as (cs & Ec & D'); try assumption.
+  - intros reg st nm HIn. destruct (NS _ _ HIn).
+  - intros reg st nm HIn. destruct (NS _ _ HIn).
+  - exists (widen fulls l), cs. rewrite get_reg_changes_full, E. repeat split; assumption.
 Qed.
 
 (* pre-indexed access [b, #k]!: the reported bump keeps the description valid *)
-Theorem preindexed_tracking_sound dests pre suf isa b k s rho0 rho rho' :
+Theorem preindexed_tracking_sound dests fulls pre suf isa b k s rho0 rho rho' :
   has_operation isa = false -> forallb no_wb pre = true -> forallb no_wb suf = true ->
   wb_step dests b k rho rho' -> describes s rho0 rho ->
-  exists l cs, get_reg_changes true dests (pre ++ IMem (Some b) (OffImm (Some k)) true PostFalse :: suf) isa false = RcOk l /\
+  exists l cs, get_reg_changes true dests fulls (pre ++ IMem (Some b) (OffImm (Some k)) true PostFalse :: suf) isa false = RcOk l /\
                to_changes l = Some cs /\ describes (update_changes s cs) rho0 rho'.
 Proof.
   intros Hop Hpre Hsuf Hstep D.
   destruct (rc_preindexed_sound dests pre suf isa b k rho rho' Hop Hpre Hsuf Hstep) as (l & E & CD).
-  destruct (rc_keys _ _ _ _ E) as (ND & _).
-  assert (SO : safe_origin_dict l).
-  { rewrite rc_preindexed in E by assumption. inversion E; subst. apply base_only_safe_origin. reflexivity. }
-  destruct (instruction_tracking_sound l s rho0 rho rho' ND SO CD D) as (cs & Ec & D').
-  exists l, cs. repeat split; assumption.
+  destruct (rc_core_keys _ _ _ _ E) as (ND & _).
+  pose proof E as E0. rewrite rc_preindexed in E0 by assumption. inversion E0; subst.
+  destruct (base_only_safe_origin b (mkO (Some b) (Some k)) (dedup [] dests) eq_refl) as (SO & Hf).
+  destruct (widened_tracking_sound _ fulls s rho0 rho rho' ND SO (Hf fulls) CD D) as (cs & Ec & D').
+  eexists _, cs. rewrite get_reg_changes_full, E. repeat split; eassumption.
 Qed.
 
 (* post-indexed access [b], #v / [b], xm: the two dicts of the scan -- get_reg_changes(..) applied before is_memload looks at
    the line, get_reg_changes(.., only_postindexed=True) after it -- follow the two architectural steps: after the first
    dict the tracked state describes the register file at the access (base not yet bumped), after the second the final one *)
-Theorem postindexed_tracking_sound dests pre suf isa b off p s rho0 rho rho_mid rho' :
+Theorem postindexed_tracking_sound dests fulls pre suf isa b off p s rho0 rho rho_mid rho' :
   let ops := (pre ++ IMem (Some b) off false p :: suf)%list in
   has_operation isa = false -> forallb no_wb pre = true -> forallb no_wb suf = true -> is_postdict p = true ->
   access_step dests b rho rho_mid -> bump_step b p rho_mid rho' -> describes s rho0 rho ->
   exists l cs lp cp,
-    get_reg_changes true dests ops isa false = RcOk l /\ to_changes l = Some cs /\
-    get_reg_changes true dests ops isa true = RcOk lp /\ to_changes lp = Some cp /\
+    get_reg_changes true dests fulls ops isa false = RcOk l /\ to_changes l = Some cs /\
+    get_reg_changes true dests fulls ops isa true = RcOk lp /\ to_changes lp = Some cp /\
     describes (update_changes s cs) rho0 rho_mid /\
     describes (update_changes (update_changes s cs) cp) rho0 rho'.
 Proof.
@@ -525,14 +718,16 @@ Proof.
     - intros reg c HIn. apply in_map_iff in HIn. destruct HIn as (r & Ex & _). inversion Ex; subst.
       destruct (String.eqb_spec reg b); [subst|exact I]. eexists _, _. cbn. repeat split. lia.
     - intros r Hr. apply Hother. intros HIn. apply Hr. rewrite map_map. cbn [fst]. rewrite map_id. apply dedup_spec. cbn. tauto. }
-  destruct (rc_keys _ _ _ _ E) as (ND & _).
-  destruct (instruction_tracking_sound _ s rho0 rho rho_mid ND (base_only_safe_origin b (mkO (Some b) (Some 0)) _ eq_refl) CD D) as (cs & Ec & D1).
+  destruct (rc_core_keys _ _ _ _ E) as (ND & _).
+  destruct (base_only_safe_origin b (mkO (Some b) (Some 0)) (dedup [] dests) eq_refl) as (SO & Hf).
+  destruct (widened_tracking_sound _ fulls s rho0 rho rho_mid ND SO (Hf fulls) CD D) as (cs & Ec & D1).
   assert (Hnp : forallb no_postdict pre = true).
   { clear -Hpre. induction pre as [|o pre IH]; [reflexivity|]. cbn [forallb] in *. apply andb_true_iff in Hpre. destruct Hpre as [Ho H].
     rewrite IH by exact H. rewrite andb_true_r. destruct o as [| |[?|] ? [|] [|?|]|]; try discriminate; reflexivity. }
   pose proof (rc_postindexed dests pre suf isa b off false p Hnp Hp) as Ep. fold ops in Ep.
   eexists _, cs, (post_dict b p), (match p with PostImm v => [(b, Some (b, v))] | _ => [(b, None)] end).
-  split; [exact E|]. split; [exact Ec|]. split; [exact Ep|]. split; [destruct p; reflexivity|]. split; [exact D1|].
+  split; [rewrite get_reg_changes_full, E; reflexivity|]. split; [exact Ec|].
+  split; [rewrite get_reg_changes_post; exact Ep|]. split; [destruct p; reflexivity|]. split; [exact D1|].
   assert (A : apply_change rho_mid b (match p with PostImm v => Some (b, v) | _ => None end) rho').
   { split; [exact Hrest|]. destruct p; try exact I. exact Hbump. }
   pose proof (update_one_describes _ rho0 rho_mid rho' b _ D1 A) as D2.
@@ -552,28 +747,20 @@ Definition adds_regreg_entry : op_entry :=
 
 Theorem register_addend_refuted_x86 : ~ entry_sound sbb_regreg_entry.
 Proof.
-  intros ES. destruct (ES [IReg "rax"; IReg "rbx"]) as (l & E & _ & CD); [cbn; tauto|].
+  intros ES. destruct (ES [IReg "rax"; IReg "rbx"]) as (l & E & _ & _ & CD); [cbn; tauto|].
   vm_compute in E. inversion E; subst; clear E.
   set (rho := fun r : string => if r =? "rax" then 1 else 0).
-  set (rho' := fun r : string => if r =? "rax" then 1 else if r =? "rbx" then -1 else 0).
-  assert (A : arch_step true "SBB" [IReg "rax"; IReg "rbx"] rho rho').
-  { exists 0, "rbx", (-1). repeat split; [left; reflexivity|].
-    intros r Hr. unfold rho', rho. destruct (r =? "rax"); [reflexivity|]. destruct (String.eqb_spec r "rbx"); [contradiction|reflexivity]. }
-  destruct (CD rho rho' A) as (Hc & _). specialize (Hc "rbx" _ (or_introl eq_refl)).
-  destruct Hc as (nm & v & En & Ev & Hv). cbn in En, Ev. inversion En; inversion Ev; subst. vm_compute in Hv. discriminate.
+  destruct (CD rho 0 "rbx" (-1) eq_refl) as (_ & _ & Hc). specialize (Hc _ (or_introl eq_refl)).
+  destruct Hc as (nm & k & En & Ek & Hv). cbn in En, Ek. inversion En; inversion Ek; subst. vm_compute in Hv. discriminate.
 Qed.
 
 Theorem register_addend_refuted_a64 : ~ entry_sound adds_regreg_entry.
 Proof.
-  intros ES. destruct (ES [IReg "x1"; IReg "x2"; IReg "x3"]) as (l & E & _ & CD); [cbn; tauto|].
+  intros ES. destruct (ES [IReg "x1"; IReg "x2"; IReg "x3"]) as (l & E & _ & _ & CD); [cbn; tauto|].
   vm_compute in E. inversion E; subst; clear E.
   set (rho := fun r : string => if r =? "x3" then 8 else 0).
-  set (rho' := fun r : string => if r =? "x3" then 8 else if r =? "x1" then 8 else 0).
-  assert (A : arch_step false "ADDS" [IReg "x1"; IReg "x2"; IReg "x3"] rho rho').
-  { exists 0, "x1", 8. repeat split; [left; reflexivity|].
-    intros r Hr. unfold rho', rho. destruct (r =? "x3"); [reflexivity|]. destruct (String.eqb_spec r "x1"); [contradiction|reflexivity]. }
-  destruct (CD rho rho' A) as (Hc & _). specialize (Hc "x1" _ (or_introl eq_refl)).
-  destruct Hc as (nm & v & En & Ev & Hv). cbn in En, Ev. inversion En; inversion Ev; subst. vm_compute in Hv. discriminate.
+  destruct (CD rho 0 "x1" 8 eq_refl) as (_ & _ & Hc). specialize (Hc _ (or_introl eq_refl)).
+  destruct Hc as (nm & k & En & Ek & Hv). cbn in En, Ek. inversion En; inversion Ek; subst. vm_compute in Hv. discriminate.
 Qed.
 
 (* ---------------------------------------------------------------- non-vacuity *)
@@ -630,27 +817,138 @@ Example add_imm_a64_without_name_copy_refuted :
   ~ entry_sound (mkOp false "ADD" 0 [mkP KReg false true; mkP KReg true false; mkP KImm true false]
                       [SSetValue 1 (VAdd (VVal 2) (VVal 3))] "op1['value'] = op2['value'] + op3['value']").
 Proof.
-  intros ES. destruct (ES [IReg "x1"; IReg "x2"; IImm (Some 4)]) as (l & E & _ & CD); [cbn; tauto|].
+  intros ES. destruct (ES [IReg "x1"; IReg "x2"; IImm (Some 4)]) as (l & E & _ & _ & CD); [cbn; tauto|].
   vm_compute in E. inversion E; subst; clear E.
   set (rho := fun r : string => if r =? "x2" then 100 else 0).
-  set (rho' := fun r : string => if r =? "x2" then 100 else if r =? "x1" then 104 else 0).
-  assert (A : arch_step false "ADD" [IReg "x1"; IReg "x2"; IImm (Some 4)] rho rho').
-  { exists 0, "x1", 104. repeat split; [left; reflexivity|].
-    intros r Hr. unfold rho', rho. destruct (r =? "x2"); [reflexivity|]. destruct (String.eqb_spec r "x1"); [contradiction|reflexivity]. }
-  destruct (CD rho rho' A) as (Hc & _). specialize (Hc "x1" _ (or_introl eq_refl)).
-  destruct Hc as (nm & v & En & Ev & Hv). cbn in En, Ev. inversion En; inversion Ev; subst. vm_compute in Hv. discriminate.
+  destruct (CD rho 0 "x1" 104 eq_refl) as (_ & _ & Hc). specialize (Hc _ (or_introl eq_refl)).
+  destruct Hc as (nm & k & En & Ek & Hv). cbn in En, Ek. inversion En; inversion Ek; subst. vm_compute in Hv. discriminate.
 Qed.
 
 (* the pre-0bfe782 rule (the LAST operand naming a register wins) is what made add x1, x1, #4 lose its increment:
    with the destination flag consulted, the written operand's state is reported *)
 Example same_register_source_and_destination :
-  get_reg_changes true ["x1"] [IReg "x1"; IReg "x1"; IImm (Some 4)]
+  get_reg_changes_core true ["x1"] [IReg "x1"; IReg "x1"; IImm (Some 4)]
                   (Some (mkRC [true; false; false] (Some [SSetValue 1 (VAdd (VVal 2) (VVal 3)); SSetName 1 2]))) false
   = RcOk [("x1", Some (mkO (Some "x1") (Some 4)))].
 Proof. vm_compute. reflexivity. Qed.
 
 (* Python exceptions are explicit: an operation reading a memory operand's state raises NameError *)
 Example memory_operand_has_no_state :
-  get_reg_changes true ["rax"] [IMem (Some "rbx") OffNone false PostFalse; IReg "rax"]
+  get_reg_changes_core true ["rax"] [IMem (Some "rbx") OffNone false PostFalse; IReg "rax"]
                   (Some (mkRC [false; true] (Some [SAugValue 2 true (VVal 1)]))) false = RcErr ENameError.
 Proof. vm_compute. reflexivity. Qed.
+
+(* ---------------------------------------------------------------- sub-register aliasing *)
+(* Architectural registers with narrower views (rax: eax, ax, al; x1: w1): a name r is a view of the architectural register
+   fam r, reading it gives the content modulo width r (2^64, 2^32, 2^16, 2^8); a write through a narrow view leaves the rest of
+   the architectural register arbitrary (covers zero-extension and preservation); arithmetic wraps around.  This is the
+   semantics of the Python oracle in harness/regchg.py.  is_full r: r is the full-width (address-capable) name of its register. *)
+Section Alias.
+  Variable fam : string -> string.
+  Variable width : string -> Z.
+  Variable full_of : string -> string.
+
+  Definition astate := string -> Z.
+  Definition aread (sg : astate) (r : string) : Z := sg (fam r) mod width r.
+  Definition is_full (r : string) : Prop := full_of (fam r) = r.
+
+  (* the `fulls` input is right: every destination register is full-width or its full-width register is listed *)
+  Definition fulls_ok (dests fulls : list string) : Prop :=
+    forall d, In d dests -> is_full d \/ In (full_of (fam d)) fulls.
+
+  Definition alias_step (x86 : bool) (mnem : string) (ops : list iop) (sg sg' : astate) : Prop :=
+    exists cf d v, (cf = 0 \/ cf = 1) /\ arch_effect x86 mnem ops (aread sg) cf = Some (d, v) /\
+                   aread sg' d = v mod width d /\ forall f, f <> fam d -> sg' f = sg f.
+
+  (* a reported (name, value) holds modulo the width of the reported register; every FULL-WIDTH register that is not
+     reported is unchanged (the consumer treats an absent register as unchanged and only addresses through full-width ones) *)
+  Definition alias_describe (l : rc_dict) (sg sg' : astate) : Prop :=
+    (forall reg c, In (reg, c) l ->
+       match c with
+       | Some st => exists nm k, o_name st = Some nm /\ o_value st = Some k /\ aread sg' reg = (aread sg nm + k) mod width reg
+       | None => True
+       end) /\
+    (forall r, is_full r -> ~ In r (map fst l) -> aread sg' r = aread sg r).
+
+  (* ANY instruction (with or without operation): if only architectural registers of destination registers change, a
+     full-width register that get_reg_changes does not report is unchanged *)
+  Theorem unreported_fullwidth_unchanged dests fulls ops isa l sg sg' :
+    get_reg_changes true dests fulls ops isa false = RcOk l -> fulls_ok dests fulls ->
+    (forall f, (forall d, In d dests -> f <> fam d) -> sg' f = sg f) ->
+    forall r, is_full r -> ~ In r (map fst l) -> aread sg' r = aread sg r.
+  Proof.
+    intros E FO Hstep r Fr Nr. destruct (rc_keys _ _ _ _ _ E) as (_ & K).
+    assert (Nd : ~ In r dests) by (intros H; apply Nr; apply K; left; exact H).
+    assert (Nf : ~ In r fulls) by (intros H; apply Nr; apply K; right; exact H).
+    unfold aread. rewrite (Hstep (fam r)); [reflexivity|].
+    intros d Hd Ef. unfold is_full in Fr. destruct (FO d Hd) as [Fd|Fd].
+    - unfold is_full in Fd. apply Nd. rewrite <- Fr, Ef, Fd. exact Hd.
+    - apply Nf. rewrite <- Fr, Ef. exact Fd.
+  Qed.
+
+  (* the table entries against the aliasing semantics *)
+  Theorem entry_sound_alias e :
+    entry_sound e ->
+    forall ops fulls, matches (oe_pat e) ops -> fulls_ok (pattern_dests (oe_pat e) ops) fulls ->
+    exists l, get_reg_changes true (pattern_dests (oe_pat e) ops) fulls ops (Some (entry_of e)) false = RcOk l /\
+              forall sg sg', alias_step (oe_x86 e) (oe_mnem e) ops sg sg' -> alias_describe l sg sg'.
+  Proof.
+    intros ES ops fulls M FO. destruct (ES ops M) as (l & E & _ & _ & CD).
+    assert (E' : get_reg_changes true (pattern_dests (oe_pat e) ops) fulls ops (Some (entry_of e)) false = RcOk (widen fulls l))
+      by (rewrite get_reg_changes_full, E; reflexivity).
+    exists (widen fulls l). split; [exact E'|]. intros sg sg' (cf & d & v & _ & He & Hd & Hf).
+    destruct (CD (aread sg) cf d v He) as (Hin & Honly & Hcl). split.
+    - intros reg c HIn. destruct (widen_in fulls l reg c HIn) as [H|[_ ->]]; [|exact I].
+      assert (reg = d) by (apply Honly; apply in_map_iff; exists (reg, c); split; [reflexivity|exact H]). subst reg.
+      specialize (Hcl c H). destruct c as [st|]; [|exact I]. destruct Hcl as (nm & k & En & Ek & Ev).
+      exists nm, k. repeat split; try assumption. rewrite Hd, Ev. reflexivity.
+    - apply (unreported_fullwidth_unchanged _ _ _ _ _ sg sg' E' FO). intros f Hall. apply Hf. apply Hall.
+      destruct (rc_core_keys _ _ _ _ E) as (_ & K). apply K. exact Hin.
+  Qed.
+
+  (* with the `fulls` input right, the full-width register of every written sub-register is reported as unknown *)
+  Theorem subregister_write_unknown dests fulls ops isa l d :
+    get_reg_changes true dests fulls ops isa false = RcOk l -> fulls_ok dests fulls ->
+    In d dests -> ~ is_full d ->
+    In (full_of (fam d), None) l /\ forall st, ~ In (full_of (fam d), Some st) l.
+  Proof.
+    intros E FO Hd Nf. destruct (FO d Hd) as [F|F]; [contradiction|]. exact (subregister_write_no_claim _ _ _ _ _ _ E F).
+  Qed.
+End Alias.
+
+(* a tiny instance: eax is the low half of rax *)
+Definition ex_fam (r : string) : string := if r =? "eax" then "rax" else r.
+Definition ex_width (r : string) : Z := if r =? "eax" then 2 ^ 32 else 2 ^ 64.
+Definition ex_full (f : string) : string := f.
+Definition ex_addl : list iop := [IImm (Some 8); IReg "eax"].
+Definition ex_add_entry : rc_entry := mkRC [false; true] (Some [SAugValue 2 true (VVal 1)]).
+
+(* addl $8, %eax *)
+Example subregister_write_example :
+  get_reg_changes true ["eax"] ["rax"] ex_addl (Some ex_add_entry) false
+  = RcOk [("eax", Some (mkO (Some "eax") (Some 8))); ("rax", None)].
+Proof. vm_compute. reflexivity. Qed.
+
+Example fulls_ok_example : fulls_ok ex_fam ex_full ["eax"] ["rax"].
+Proof. intros d [<-|[]]. right. left. reflexivity. Qed.
+
+(* the 32-bit addition wraps around, the upper half of rax is cleared *)
+Example alias_step_nonvacuous :
+  alias_step ex_fam ex_width true "ADD" ex_addl (fun _ => 2 ^ 32 - 4) (fun f => if f =? "rax" then 4 else 2 ^ 32 - 4).
+Proof.
+  exists 0, "eax", (2 ^ 32 + 4). split; [left; reflexivity|]. split; [vm_compute; reflexivity|]. split; [vm_compute; reflexivity|].
+  intros f Hf. change (ex_fam "eax") with "rax" in Hf. destruct (String.eqb_spec f "rax"); [contradiction|reflexivity].
+Qed.
+
+(* the finding, in the model: WITHOUT the full-width entry (fulls = [], the behaviour before the repair) the dict of
+   `addl $8, %eax` does not describe the step -- rax is full-width, unreported, and changes *)
+Example without_fullwidth_report_refuted :
+  exists l sg sg',
+    get_reg_changes true ["eax"] [] ex_addl (Some ex_add_entry) false = RcOk l /\
+    alias_step ex_fam ex_width true "ADD" ex_addl sg sg' /\ ~ alias_describe ex_fam ex_width ex_full l sg sg'.
+Proof.
+  eexists _, (fun _ => 2 ^ 32 - 4), (fun f => if f =? "rax" then 4 else 2 ^ 32 - 4).
+  split; [vm_compute; reflexivity|]. split; [exact alias_step_nonvacuous|].
+  intros (_ & H). specialize (H "rax" eq_refl). cbn in H. assert (N : ~ ("eax" = "rax" \/ False)) by (intros [E|[]]; discriminate).
+  specialize (H N). vm_compute in H. discriminate.
+Qed.
